@@ -1,6 +1,7 @@
 //! Resting place for [OgreArc<>]
 
 use super::types::BoundedOgreAllocator;
+#[cfg(not(feature = "verif"))]
 use std::{
     sync::atomic::{
             self,
@@ -12,6 +13,10 @@ use std::{
     marker::PhantomData,
     ptr::NonNull,
 };
+#[cfg(feature = "verif")]
+use std::{sync::atomic::Ordering::{Acquire, Relaxed, Release}, ops::{Deref, DerefMut}, fmt::{Debug, Display, Formatter}, marker::PhantomData, ptr::NonNull};
+#[cfg(feature = "verif")]
+use crate::verif::{self as atomic, AtomicU32};
 use std::borrow::Borrow;
 
 /// Wrapper type for data providing an atomic reference counter for dropping control, similar to `Arc`,
@@ -268,6 +273,14 @@ OgreArc<DataType, OgreAllocatorType> {
     }
 }
 
+
+/// verification hooks: lets the external harness name the reference counter
+#[cfg(feature = "verif")]
+impl<DataType:          Debug + Send + Sync,
+     OgreAllocatorType: BoundedOgreAllocator<DataType> + Send + Sync>
+OgreArc<DataType, OgreAllocatorType> {
+    pub fn verif_count_addr(&self) -> usize { &unsafe { self.inner.as_ref() }.references_count as *const AtomicU32 as usize }
+}
 
 unsafe impl<DataType:          Debug + Send + Sync,
             OgreAllocatorType: BoundedOgreAllocator<DataType> + Send + Sync>
